@@ -241,11 +241,12 @@ fn vk_c17_canary_uci_parse() {
 
 //@ obligation: C14.go.parse_duration_total
 //@ property: C14 C13
+//@ status: experimental
 //@ domain: complete
 //@ functions: engine/uci/parser.rs::parse_duration
 //@ timeout: 300
 //@ note: every clock / increment / movetime value a `go` command can carry (any i64, negative values included -- GUIs send negative clocks when a side has overstepped): parse_duration never panics and yields max(n, 0) milliseconds
-//@ assumes: std::time::Duration::from_millis as compiled
+//@ assumes: std::time::Duration::from_millis as compiled.  MEASURED: times out after 300 s (64-bit division / multiplication inside Duration::from_millis and its comparison) -- experimental
 #[kani::proof]
 fn vk_c14_go_parse_duration_total() {
     let n: i64 = kani::any();
